@@ -1299,6 +1299,87 @@ mod http_mock {
 	}
 }
 
+/// C03 (HTTP client): a single call completes with a value or an error object only from a reply carrying the call's own id.
+pub fn http_client_single_reply_id() -> Value {
+	use jsonrpsee_core::client::{Error, MiddlewareBatchResponse, MiddlewareMethodResponse, MiddlewareNotifResponse, RawResponseOwned};
+	use jsonrpsee_core::middleware::{Batch, Notification, RpcServiceBuilder, RpcServiceT};
+	use jsonrpsee_http_client::HttpClientBuilder;
+	use jsonrpsee_types::{ErrorObject, Id, Request, Response, ResponsePayload};
+	use std::sync::{Arc, Mutex};
+	#[derive(Clone)]
+	struct One<S> {
+		inner: S,
+		mode: Arc<Mutex<(usize, bool)>>,
+	}
+	const ID_FORMS: [&str; 6] = ["the call's own id", "own id + 1", "own id + 99", "the own id's digits as a string", "null", "own id - 1"];
+	impl<S> RpcServiceT for One<S>
+	where
+		S: RpcServiceT<MethodResponse = Result<MiddlewareMethodResponse, Error>, BatchResponse = Result<MiddlewareBatchResponse, Error>, NotificationResponse = Result<MiddlewareNotifResponse, Error>> + Send + Sync + Clone + 'static,
+	{
+		type MethodResponse = Result<MiddlewareMethodResponse, Error>;
+		type BatchResponse = Result<MiddlewareBatchResponse, Error>;
+		type NotificationResponse = Result<MiddlewareNotifResponse, Error>;
+		fn call<'a>(&self, request: Request<'a>) -> impl Future<Output = Self::MethodResponse> + Send + 'a {
+			let own = match request.id { Id::Number(n) => n, _ => 0 };
+			let (form, is_err) = *self.mode.lock().unwrap();
+			async move {
+				let id: Id<'static> = match form {
+					0 => Id::Number(own),
+					1 => Id::Number(own + 1),
+					2 => Id::Number(own + 99),
+					3 => Id::Str(own.to_string().into()),
+					4 => Id::Null,
+					_ => Id::Number(own.wrapping_sub(1)),
+				};
+				let payload = if is_err {
+					ResponsePayload::error(ErrorObject::owned(-32000, format!("error addressed to {id:?}"), Some("d")))
+				} else {
+					ResponsePayload::success(serde_json::value::to_raw_value(&format!("value addressed to {id:?}")).unwrap())
+				};
+				let rp: Response<'static, Box<serde_json::value::RawValue>> = Response::new(payload, id);
+				let raw: RawResponseOwned = rp.into();
+				Ok(MiddlewareMethodResponse::response(raw))
+			}
+		}
+		fn batch<'a>(&self, requests: Batch<'a>) -> impl Future<Output = Self::BatchResponse> + Send + 'a {
+			self.inner.batch(requests)
+		}
+		fn notification<'a>(&self, n: Notification<'a>) -> impl Future<Output = Self::NotificationResponse> + Send + 'a {
+			self.inner.notification(n)
+		}
+	}
+	let mode = Arc::new(Mutex::new((0usize, false)));
+	let mode2 = mode.clone();
+	rt().block_on(async move {
+		let mw = RpcServiceBuilder::new().layer_fn(move |inner| One { inner, mode: mode2.clone() });
+		let client = HttpClientBuilder::default().set_rpc_middleware(mw).build("http://127.0.0.1:9").unwrap();
+		let mut tried = 0u64;
+		for warm in 0..3usize {
+			for form in 0..ID_FORMS.len() {
+				for is_err in [false, true] {
+					tried += 1;
+					*mode.lock().unwrap() = (form, is_err);
+					let r = client.request::<String, _>("m", rpc_params![]).await;
+					let desc = format!("HTTP client, call number {} of the client; the reply is {} carrying {}", warm * ID_FORMS.len() * 2 + form * 2 + is_err as usize, if is_err { "an error" } else { "a result" }, ID_FORMS[form]);
+					let bad = match (&r, form, is_err) {
+						(Ok(v), 0, false) if v.starts_with("value addressed to") => None,
+						(Err(Error::Call(e)), 0, true) if e.code() == -32000 && e.message().starts_with("error addressed to") && e.data().map(|d| d.get()) == Some("\"d\"") => None,
+						(_, 0, _) => Some(format!("{r:?}")),
+						(Ok(v), _, _) => Some(format!("the call completed with the value {v:?}")),
+						(Err(Error::Call(e)), _, _) => Some(format!("the call completed with the error object {e:?}")),
+						(Err(_), _, _) => None,
+					};
+					if let Some(obs) = bad {
+						return json!({"probe":"http_client_single_reply_id","disagrees":true,"input":desc,"observed":obs,
+							"expected": if form == 0 { "the value / error object that reply carried" } else { "a reply bearing another id completes no call: an error that is not the reply's error object" }});
+					}
+				}
+			}
+		}
+		json!({"probe":"http_client_single_reply_id","disagrees":false,"inputs_tried":tried,"bound":"36 consecutive calls; reply id in {own, own+1, own+99, own as string, null, own-1} x {result, error}"})
+	})
+}
+
 /// C12 (HTTP client): every reply sequence of length 1..=3 over ids start-1..=start+3 for a batch of 3 (after a warm-up call).
 pub fn http_client_batch_positional() -> Value {
 	use jsonrpsee_http_client::HttpClientBuilder;
